@@ -317,6 +317,7 @@ class HGraph(object):
         self.ws = ('succ', 'pred') if directed else ('adj',)
         self.comp = {}
         self.py = {}          # opaque python-level attributes (name, ...)
+        self.valid = False    # typestate: Inv(g) is known to hold (established by the constructor's / kernel's contract)
 
     def comp_names(self):
         names = list(COMP_SORTS)
@@ -358,6 +359,7 @@ class HGraph(object):
         s = HGraph(self.name, self.directed, self.cls)
         s.comp = dict(self.comp)
         s.py = dict(self.py)
+        s.valid = self.valid
         return s
 
     def __getitem__(self, c):
